@@ -204,8 +204,9 @@ HARNESSES = {}
 
 
 class Harness:
-    def __init__(self, prop, name, fn, params, desc="", split_depth=6, known=None, fresh_solver=False):
+    def __init__(self, prop, name, fn, params, desc="", split_depth=6, known=None, fresh_solver=False, cross_solver=0):
         self.fresh_solver = fresh_solver
+        self.cross_solver = cross_solver  # per worker job: how many unsat path verdicts are re-decided with cvc5
         self.prop = prop
         self.name = name
         self.fn = fn
@@ -234,6 +235,7 @@ def _worker_job(key, job, roots, max_paths, deadline, seed, validate_cap, split_
     h = HARNESSES[key]
     eng = E.set_engine(E.Engine(seed=seed))
     eng.fresh_solver_per_path = h.fresh_solver
+    eng.cross_budget = h.cross_solver
     eng.split_depth = split_depth if job == "split" else None
     res = dict(cex=[], samples=[], validated=0, validation_errors=[], errors=[], native_skipped=0)
     state = dict(x=None, obs=None, n=0)
@@ -536,7 +538,8 @@ class Check:
                 stubs=self.stubs,
                 vacuity=self.vacuity,
                 lemmas=self.lemmas,
-                solver=dict(z3=z3.get_version_string(), queries=int(tot.get("queries", 0)), sat=int(tot.get("sat", 0)), unsat=int(tot.get("unsat", 0)),
+                solver=dict(z3=z3.get_version_string(), cvc5_rechecked_unsat=int(tot.get("cvc5_unsat", 0)), cvc5_disagreements=int(tot.get("cvc5_sat", 0)),
+                            cvc5_unknown_or_error=int(tot.get("cvc5_unknown", 0) + tot.get("cvc5_error", 0)), cvc5_s=round(tot.get("cvc5_s", 0.0), 2), queries=int(tot.get("queries", 0)), sat=int(tot.get("sat", 0)), unsat=int(tot.get("unsat", 0)),
                             unknown=int(tot.get("unknown", 0)), solver_s=round(tot.get("solver_s", 0.0), 3)),
                 inconclusive=self.harness_errors[:20],
                 known_findings_hit=[k["signature"] for k, _, _ in self.known_hits],
